@@ -75,7 +75,8 @@ func c10Build(hier int, toggles []int) (*Dir, map[string][]byte) {
 			cfg.Validity = &refcfg.Validity{Duration: "2y"}
 		}
 		if has(2) {
-			cfg.Validity = &refcfg.Validity{From: "2020-01-01", Until: "2040-01-01"}
+			// current, not yet valid, and expired by design - by position in the hierarchy
+			cfg.Validity = []*refcfg.Validity{{From: "2020-01-01", Until: "2040-01-01"}, {From: "2090-03-04", Until: "2095-01-01"}, {From: "2001-01-01", Until: "2002-02-02"}}[i%3]
 		}
 		if has(1) && has(2) && i%2 == 1 {
 			cfg.Validity = &refcfg.Validity{Until: "2041-05-06"}
@@ -429,7 +430,7 @@ func init() {
 	register(&engine.Check{
 		ID:          "C10",
 		Level:       "model_checking",
-		Rule:        "4 hierarchies (root; root+sub; 3-tier chain; root+2 subs) x toggle sets of size <=2 (thorough <=4 and all seven) over {profile, relative validity, absolute validity, manipulations, imported key, CSR-based leaf, nested directories + explicit aliases} x 16 flag sets without generate-all x 2 clock modes (tick per write / one tick per run), 5 foreign files present: run, then run again with the same flags - from the fresh directory and (for the <=1-toggle worlds; all in thorough) after four histories: settled + edit of the root's subject, of the last entity's subject, of its extensions plus touching every config, deletion of its artifact. Second run: empty plan, nothing generated, empty write log, directory identical including mtimes. First run: changed paths = artifact paths of exactly the reported entities, no other path changed or created. The same run;run on the built binary in a native directory for every flag set on the <=1-toggle worlds and a diagonal of the rest; consent: 9 stdin answers on 14 worlds with a pending replacement (incl. replaced entities that hold a certificate but no private key: request-based, key stripped) (only `y` replaces, others leave the directory identical and exit 0, no prompt when nothing is replaced). states = worlds, transitions = runs, traces_validated = binary runs",
+		Rule:        "4 hierarchies (root; root+sub; 3-tier chain; root+2 subs) x toggle sets of size <=2 (thorough <=4 and all seven) over {profile, relative validity, absolute validity (current, not yet valid and expired-by-design periods by position), manipulations, imported key, CSR-based leaf, nested directories + explicit aliases} x 16 flag sets without generate-all x 2 clock modes (tick per write / one tick per run), 5 foreign files present: run, then run again with the same flags - from the fresh directory and (for the <=1-toggle worlds; all in thorough) after four histories: settled + edit of the root's subject, of the last entity's subject, of its extensions plus touching every config, deletion of its artifact. Second run: empty plan, nothing generated, empty write log, directory identical including mtimes. First run: changed paths = artifact paths of exactly the reported entities, no other path changed or created. The same run;run on the built binary in a native directory for every flag set on the <=1-toggle worlds and a diagonal of the rest; consent: 9 stdin answers on 14 worlds with a pending replacement (incl. replaced entities that hold a certificate but no private key: request-based, key stripped) (only `y` replaces, others leave the directory identical and exit 0, no prompt when nothing is replaced). states = worlds, transitions = runs, traces_validated = binary runs",
 		Bound:       map[string]string{"toggle set size": "quick<=2 thorough<=4 + all"},
 		Assumptions: []string{"answers `y` without newline and ` y ` are accepted by the code; the statement says `y`, so they are not demanded either way"},
 		Budget:      budgets(quickBudget, thoroughBudget),
